@@ -128,6 +128,7 @@ def _linkloss(c, n, replay=None):
 
 def run(c):
     c.proofs("theories/Properties/C14.v", clean=(c.tier == "thorough"))
+    c.translate(['TieGuard'])  # T1: the guarded methods of connection.go are the stamped rows of the model's guard table
     # the checker definitions are not in the cone of the property file: (re)build them after the cone
     import vlib
     ok, log = vlib.coq_make(["theories/NetFail/Cases.vo"])
@@ -195,7 +196,7 @@ def run(c):
         "notifications are collected after the mailboxes have been quiet for 100 ms (at most 2 s): a notification arriving later would be missed",
         "creations of successive incarnations differ (guard of C14_incarnation_partial): node creation is time.Now().Unix() seconds; "
         "the same-second restart class is generated only when known_findings.json lists its tag",
-        "guard table (netfail guard): the rows of NetFail/Guard.v were read off net/proto/connection.go by hand (each Go line is quoted there); "
+        "guard table (netfail guard): the rows of NetFail/Guard.v were read off net/proto/connection.go by hand (each Go line is quoted there) and are re-checked against the source on every run by T1 (coq/tie/TieGuard.v: the methods containing the creation guard are exactly the stamped rows); "
         "the tie is per row: every one of the fifteen methods that take a stamped identifier of the peer is called on the REAL connection object "
         "(type assertion of the gen.RemoteNode to gen.Connection) and through the process API with identifiers of the previous incarnation "
         "(pids, aliases, the (caller, ref) pair of a request the previous incarnation made) and of the current one; observed are the returned error, "
